@@ -197,7 +197,17 @@ var resolveQueries = []string{
 // walk reaches an object, the path presented to the policy is that object's canonical path.
 // Inputs on which a lexical Clean before symlink expansion changes the answer ('..' after a
 // symlink) are the known finding C02/lexical-dotdot and are reported under that class.
-func VerifC02_Resolve() {
+func VerifC02_Resolve() { c02Resolve(resolveQueries, -1) }
+
+// quick: a few representative names (symlink in the middle, '..' before and after, absolute)
+func VerifC02_Resolve_Q() { c02Resolve([]string{"a/b/c", "a/../d", "/d/e", "./a//b/"}, 2) }
+
+func VerifC02_Resolve_T0() { c02Resolve(resolveQueries[:5], -1) }
+func VerifC02_Resolve_T1() { c02Resolve(resolveQueries[5:10], -1) }
+func VerifC02_Resolve_T2() { c02Resolve(resolveQueries[10:15], -1) }
+func VerifC02_Resolve_T3() { c02Resolve(resolveQueries[15:], -1) }
+
+func c02Resolve(queries []string, fixedMode int) {
 	f := newForest()
 	cwdChoices := []string{"/", "/a", "/a/b", "/d"}
 	cwd := cwdChoices[sym.Choose("cwd", len(cwdChoices))]
@@ -205,8 +215,11 @@ func VerifC02_Resolve() {
 	sym.Assume(f.kindOf(cwd) == kDir)
 	sym.Assume(f.kindOf(fdDir) == kDir)
 	f.install(cwd, fdDir)
-	q := resolveQueries[sym.Choose("query", len(resolveQueries))]
-	mode := sym.Choose("mode", 3)
+	q := queries[sym.Choose("query", len(queries))]
+	mode := fixedMode
+	if mode < 0 {
+		mode = sym.Choose("mode", 3)
+	}
 	var got, base string
 	switch mode {
 	case 0:
@@ -226,5 +239,9 @@ func VerifC02_Resolve() {
 		sym.Reach("dotdot-after-symlink")
 		sym.Extra("class", "lexical-dotdot-after-symlink")
 	}
+	sym.Extra("query", q)
+	sym.Extra("base", base)
+	sym.Extra("got", got)
+	sym.Extra("want", want)
 	sym.Assert(got == want, "the path presented to the policy is not the object the kernel resolves the name to")
 }
